@@ -30,8 +30,9 @@ static const char *menu[] = {
 	"dd", "x", "onew\033", "Oabove\033", "p", "P", "J", "u", "\022", ":d\n", ":1,3d\n", ":$\n",
 	"$", "0", "3G", "2dd", "yyP", "5j", "w", "A tail\033", ":2\n", "\005\005",
 	"Hdk", "Hckchanged\033", "Ld2j", "Hjd2k",
+	"oabcdefghijklmnopqrstuvwxyz\nshort\033", "A abcdefghijklmnopqrstuvwxyz\nq\033", "Oone\ntwo\nthree\033",
 };
-#define NMENU 40
+#define NMENU 43
 static struct vt A, B;
 static char want[ROWS][COLS + 2];
 static int wrow, wcol, nwant;
